@@ -9,6 +9,7 @@ import (
 	"sort"
 	"strconv"
 	"strings"
+	"sync"
 
 	"github.com/polynetwork/poly/common"
 	cstates "github.com/polynetwork/poly/core/states"
@@ -30,6 +31,8 @@ import (
 //	dec <Type> <B> <keys>        the real decoder on B: "ok <V> rest=<unread>" | "err" | "panic"
 //	decm <Type> <B> <keys>       dec, and the bytes allocated by the decoder are measured: a small input must not make it
 //	                             allocate tens of megabytes (memory reserved from a declared count)
+//	holdenc <Type> <B1> <B2> <B3> <keys>   the three values are encoded, the returned slices kept, more encodings made (also from two
+//	                             goroutines), then every kept slice re-checked; StorageItem: GenRawStorageItem / GetValueFromRawStorageItem
 //	rt <Type> <V> <B> <keys>     B is the encoding of a value rendered V: decodes to V, re-encodes to B eight times (fresh
 //	                             map iteration orders), every examined truncation is refused: "ok" | "FAIL:<which>"
 //
@@ -387,6 +390,238 @@ func allocatedBy(fn func()) uint64 {
 // before (or without) failing reserves memory from a wire count.
 func allocLimit(inputLen int) uint64 { return 32<<20 + 64*uint64(inputLen) }
 
+// recSerRaw calls the type's own encoder and returns the byte slice exactly as the encoder hands it out (no copy), so that a
+// buffer shared between calls shows.
+func recSerRaw(obj interface{}) []byte {
+	switch x := obj.(type) {
+	case *ccmcom.MakeTxParamWithSender:
+		data, err := x.Serialization()
+		if err != nil {
+			panic(err)
+		}
+		return data
+	case *cstates.StorageItem:
+		return x.ToArray()
+	}
+	sink := common.NewZeroCopySink(nil)
+	out := reflect.ValueOf(obj).MethodByName("Serialization").Call([]reflect.Value{reflect.ValueOf(sink)})
+	if len(out) == 1 && !out[0].IsNil() {
+		panic(out[0].Interface())
+	}
+	return sink.Bytes()
+}
+
+// holdEnc: holdenc <Type> <B1> <B2> <B3> <keys>. B1..B3 are encodings of three values of the type. The values are encoded one
+// after the other and the returned byte slices are KEPT; after all of them (and a second pass from two goroutines) every
+// kept slice must still be the encoding it was. For StorageItem the raw-item helpers are exercised the same way:
+// raw1 := GenRawStorageItem(x), then more raw items, then GetValueFromRawStorageItem(raw1) must still be x. Outcome "ok".
+func (f *recordsFam) holdEnc(r *hx.Run, rt *recType, op []string) string {
+	if len(op) != 6 {
+		return "bad-op"
+	}
+	datas := [][]byte{hx.UnHex(op[2]), hx.UnHex(op[3]), hx.UnHex(op[4])}
+	objs := make([]interface{}, len(datas))
+	for i, d := range datas {
+		o, _, res := f.decode(r, rt, d)
+		if res != "ok" {
+			return "bad-op"
+		}
+		objs[i] = o
+	}
+	res, pm := guarded(func() string {
+		if rt.name == "StorageItem" {
+			vals := make([][]byte, len(objs))
+			raws := make([][]byte, len(objs))
+			for i, o := range objs {
+				vals[i] = o.(*cstates.StorageItem).Value
+				raws[i] = cstates.GenRawStorageItem(vals[i])
+			}
+			for i := range raws {
+				got, err := cstates.GetValueFromRawStorageItem(raws[i])
+				if err != nil || !bytes.Equal(got, vals[i]) {
+					r.Viol("C04:raw-storage-item-changed-later", fmt.Sprintf("raw%d := GenRawStorageItem(%s); after %d more raw items were generated GetValueFromRawStorageItem(raw%d) = %s, %v",
+						i, trunc(hx.Hex(vals[i]), 80), len(raws)-1-i, i, trunc(hx.Hex(got), 80), err))
+					return "FAIL:raw-item-changed"
+				}
+			}
+			var wg2 sync.WaitGroup
+			bad2 := make(chan string, 4)
+			for w := 0; w < 2; w++ {
+				wg2.Add(1)
+				go func(w int) {
+					defer wg2.Done()
+					defer func() {
+						if e := recover(); e != nil {
+							select {
+							case bad2 <- fmt.Sprint("panic: ", e):
+							default:
+							}
+						}
+					}()
+					for round := 0; round < 60; round++ {
+						k := (round + w) % len(vals)
+						raw := cstates.GenRawStorageItem(vals[k])
+						cstates.GenRawStorageItem(vals[(k+1)%len(vals)])
+						got, err := cstates.GetValueFromRawStorageItem(raw)
+						if err != nil || !bytes.Equal(got, vals[k]) {
+							select {
+							case bad2 <- fmt.Sprintf("goroutine %d round %d: the raw item of %s reads back as %s, %v", w, round, trunc(hx.Hex(vals[k]), 60), trunc(hx.Hex(got), 60), err):
+							default:
+							}
+							return
+						}
+					}
+				}(w)
+			}
+			wg2.Wait()
+			close(bad2)
+			for msg := range bad2 {
+				r.Viol("C04:raw-storage-item-changed-later", msg)
+				return "FAIL:raw-item-changed"
+			}
+		}
+		held := make([][]byte, len(objs))
+		for i, o := range objs {
+			held[i] = recSerRaw(o)
+		}
+		for i := len(objs) - 1; i >= 0; i-- { // more encodings while the first results are still held
+			recSerRaw(objs[i])
+		}
+		for i := range held {
+			if !bytes.Equal(held[i], datas[i]) {
+				r.Viol("C04:encoding-changed-later:"+rt.name, fmt.Sprintf("the bytes returned by encoding value %d (%s) read %s after later values were encoded", i, trunc(hx.Hex(datas[i]), 100), trunc(hx.Hex(held[i]), 100)))
+				return "FAIL:changed"
+			}
+		}
+		// two goroutines, each holding and re-checking its own results
+		var wg sync.WaitGroup
+		bad := make(chan string, 4)
+		for w := 0; w < 2; w++ {
+			wg.Add(1)
+			go func(w int) {
+				defer wg.Done()
+				defer func() {
+					if e := recover(); e != nil {
+						select {
+						case bad <- fmt.Sprintf("goroutine %d panics while encoding: %v", w, e):
+						default:
+						}
+					}
+				}()
+				for round := 0; round < 40; round++ {
+					k := (round + w) % len(objs)
+					a := recSerRaw(objs[k])
+					b := recSerRaw(objs[(k+1)%len(objs)])
+					if !bytes.Equal(a, datas[k]) || !bytes.Equal(b, datas[(k+1)%len(objs)]) {
+						select {
+						case bad <- fmt.Sprintf("goroutine %d round %d: a held encoding of value %d changed while another value was encoded", w, round, k):
+						default:
+						}
+						return
+					}
+				}
+			}(w)
+		}
+		wg.Wait()
+		close(bad)
+		for msg := range bad {
+			r.Viol("C04:encoding-changed-under-concurrent-encode:"+rt.name, msg)
+			return "FAIL:concurrent"
+		}
+		return "ok"
+	})
+	if res == "panic" {
+		r.Viol("C04:encoder-panic:"+rt.name, "holdenc panics: "+pm)
+	}
+	return res
+}
+
+// setListLens gives every list and map inside v exactly n elements (n small), so that the count fields of an encoding are
+// recognisable bytes.
+func setListLens(r *hx.Run, v reflect.Value, n int) {
+	if v.Type() == bigIntPtr {
+		return
+	}
+	switch v.Kind() {
+	case reflect.Ptr:
+		if !v.IsNil() {
+			setListLens(r, v.Elem(), n)
+		}
+	case reflect.Struct:
+		for i := 0; i < v.NumField(); i++ {
+			if v.Type().Field(i).PkgPath == "" {
+				setListLens(r, v.Field(i), n)
+			}
+		}
+	case reflect.Slice:
+		if v.Type().Elem().Kind() == reflect.Uint8 {
+			return
+		}
+		s := reflect.MakeSlice(v.Type(), n, n)
+		for i := 0; i < n; i++ {
+			fillVal(r, s.Index(i), 2)
+		}
+		v.Set(s)
+	case reflect.Map:
+		for tries := 0; v.Len() != n && tries < 200; tries++ {
+			tmp := reflect.New(v.Type()).Elem()
+			fillVal(r, tmp, 2)
+			for _, k := range tmp.MapKeys() {
+				if v.Len() < n {
+					if v.IsNil() {
+						v.Set(reflect.MakeMap(v.Type()))
+					}
+					v.SetMapIndex(k, tmp.MapIndex(k))
+				}
+			}
+			for v.Len() > n {
+				v.SetMapIndex(v.MapKeys()[0], reflect.Value{})
+			}
+		}
+	}
+}
+
+func hasList(t reflect.Type) bool {
+	if t == bigIntPtr {
+		return false
+	}
+	switch t.Kind() {
+	case reflect.Ptr:
+		return hasList(t.Elem())
+	case reflect.Struct:
+		for i := 0; i < t.NumField(); i++ {
+			if t.Field(i).PkgPath == "" && hasList(t.Field(i).Type) {
+				return true
+			}
+		}
+	case reflect.Slice:
+		return t.Elem().Kind() != reflect.Uint8
+	case reflect.Map:
+		return true
+	}
+	return false
+}
+
+// guardBreakers: declared counts n = ceil(k*2^64/w)+{0,1,2}: n*w wraps around 2^64 to a small number, so a guard of the form
+// "n*w > remaining" computed in uint64 lets them through.
+func guardBreakers() []uint64 {
+	var out []uint64
+	two64 := new(big.Int).Lsh(big.NewInt(1), 64)
+	for _, w := range []int64{1, 2, 4, 8, 20, 21, 32, 33, 36, 40} {
+		for k := int64(1); k < w; k++ {
+			q := new(big.Int).Mul(big.NewInt(k), two64)
+			q.Add(q, big.NewInt(w-1))
+			q.Div(q, big.NewInt(w))
+			for d := uint64(0); d < 3; d++ {
+				if q.IsUint64() {
+					out = append(out, q.Uint64()+d)
+				}
+			}
+		}
+	}
+	return out
+}
+
 func (f *recordsFam) Exec(r *hx.Run, op []string) string {
 	rt := recByName(op[1])
 	if rt == nil {
@@ -415,6 +650,8 @@ func (f *recordsFam) Exec(r *hx.Run, op []string) string {
 			rs = "-"
 		}
 		return fmt.Sprintf("ok %s rest=%s", render(obj), rs)
+	case "holdenc":
+		return f.holdEnc(r, rt, op)
 	case "rt":
 		want, data := op[2], hx.UnHex(op[3])
 		obj, rest, res := f.decode(r, rt, data)
@@ -526,6 +763,61 @@ func (f *recordsFam) Gen(r *hx.Run) {
 				out := r.Do(fmt.Sprintf("dec %s %s keys=-", rt.name, hx.Hex(m)))
 				r.Hist("malformed." + outClass(out))
 				r.Nontrivial(fmt.Sprintf("%s-mut/%s/%d", rt.name, outClass(out), lenBucket(len(m))))
+			}
+		}
+		// encoders hand out byte slices: three values encoded, results held, more encodings made, earlier results re-checked
+		for i := 0; i < r.Pick(2, 40); i++ {
+			newCase(rt.name + "-holdenc")
+			var encs []string
+			for j := 0; j < 3; j++ {
+				o := rt.mk()
+				fillVal(r, reflect.ValueOf(o).Elem(), 0)
+				if rt.fix != nil {
+					rt.fix(r, o)
+				}
+				encs = append(encs, hx.Hex(recSer(o)))
+			}
+			r.Do(fmt.Sprintf("holdenc %s %s keys=-", rt.name, strings.Join(encs, " ")))
+		}
+		// list / map counts replaced by overflow-guard breakers: counts n with n*w just above a multiple of 2^64
+		if hasList(reflect.TypeOf(rt.mk()).Elem()) && !f.sawPanic[rt.name] {
+			o := rt.mk()
+			fillVal(r, reflect.ValueOf(o).Elem(), 0)
+			setListLens(r, reflect.ValueOf(o).Elem(), 3)
+			if rt.fix != nil {
+				rt.fix(r, o)
+			}
+			enc := recSer(o)
+			var cand [][2]int // (offset, width of the count field: 1 = var-uint byte, 8 = uint64)
+			for i := 0; i < len(enc) && len(cand) < r.Pick(3, 8); i++ {
+				if enc[i] != 3 {
+					continue
+				}
+				if i+8 <= len(enc) && bytes.Equal(enc[i+1:i+8], make([]byte, 7)) {
+					cand = append(cand, [2]int{i, 8})
+				} else {
+					cand = append(cand, [2]int{i, 1})
+				}
+			}
+			newCase(rt.name + "-guardbreakers")
+			for _, cw := range cand {
+				for _, n := range guardBreakers() {
+					var c []byte
+					if cw[1] == 8 {
+						c = varuintBytes(n, 3)[1:]
+					} else {
+						c = varuintBytes(n, 3)
+					}
+					m := append(append(append([]byte{}, enc[:cw[0]]...), c...), enc[cw[0]+cw[1]:]...)
+					out := r.Do(fmt.Sprintf("dec %s %s keys=-", rt.name, hx.Hex(m)))
+					r.Hist("guardbreaker." + outClass(out))
+					if f.sawPanic[rt.name] {
+						break
+					}
+				}
+				if f.sawPanic[rt.name] {
+					break
+				}
 			}
 		}
 		// maps: duplicate keys (the last one wins) and entries in a non-canonical order are accepted and canonicalised
